@@ -153,7 +153,7 @@ impl<R: Read> AesReader<R> {
 impl<R: Read> AesReaderValid<R> {
     // representation invariant: established by `validate`, needed and re-established by `read`
     pub open spec fn wf(&self) -> bool {
-        (self.finalized ==> self.data_remaining == 0)
+        (self.finalized ==> self.data_remaining == 0) && (self.authenticated ==> self.finalized)
         && self.cipher.g_wf() && self.cipher.g_k() >= 0
         && self.cipher.g_k() + self.data_remaining <= ks_limit()
     }
